@@ -122,6 +122,8 @@ const maxTmpls = 96
 type keyEvaluator struct {
 	c        *Ctx
 	undecide []string // reasons collected while evaluating
+	fieldMemo map[string][]Tmpl
+	fieldBusy map[string]bool
 	// phiLive, when set, prunes phi edges (specialisation on a boolean parameter)
 	phiLive func(phi *ssa.Phi, i int) bool
 }
@@ -263,6 +265,9 @@ func (k *keyEvaluator) eval(v ssa.Value, env kenv, depth int, busy map[ssa.Value
 			return out
 		}
 		if base, f, n := fieldLoad(x); base != nil {
+			if t, ok := k.fieldContents(n, f, depth); ok {
+				return t
+			}
 			return []Tmpl{{Part{K: pVar, S: "field " + namedName(n) + "." + f, V: v}}}
 		}
 		if g := globalLoad(x); g != nil {
@@ -818,50 +823,103 @@ func phiEdgeKnownNil(phi *ssa.Phi, i int) bool {
 }
 
 // builderContents evaluates buf.Bytes()/String() of a local bytes.Buffer or
-// strings.Builder: the Write* calls on the same variable, which must all
-// dominate the read and be totally ordered by dominance (straight-line use).
+// strings.Builder: the Write* calls on the same variable and the library helper
+// functions it is passed to (which write to it in turn) must all dominate the
+// read and be totally ordered by dominance (straight-line use).
 func (k *keyEvaluator) builderContents(read *ssa.Call, env kenv, depth int, busy map[ssa.Value]bool) ([]Tmpl, bool) {
 	recv := read.Common().Args[0]
 	al, ok := recv.(*ssa.Alloc)
 	if !ok {
 		return nil, false
 	}
-	var writes []*ssa.Call
-	for _, r := range realReferrers(al) {
+	return k.builderEvents(al, read, env, depth, busy)
+}
+
+// builderEvents: ordered contents written through the address addr (an Alloc or
+// a *Builder parameter). until != nil: only events dominating that instruction.
+func (k *keyEvaluator) builderEvents(addr ssa.Value, until ssa.Instruction, env kenv, depth int, busy map[ssa.Value]bool) ([]Tmpl, bool) {
+	if depth > 6 {
+		return nil, false
+	}
+	type event struct {
+		call   *ssa.Call
+		helper *ssa.Function
+		pidx   int
+	}
+	var events []event
+	for _, r := range realReferrers(addr) {
 		call, ok := r.(*ssa.Call)
 		if !ok {
-			if _, isDbg := r.(*ssa.DebugRef); isDbg {
-				continue
-			}
-			return nil, false // address escapes
+			return nil, false // the address escapes in a way we do not follow
 		}
-		if call == read {
+		if ssa.Instruction(call) == until {
 			continue
 		}
 		name := calleeFullName(call)
+		isRecv := len(call.Common().Args) > 0 && call.Common().Args[0] == addr && (strings.HasPrefix(name, "(*bytes.Buffer).") || strings.HasPrefix(name, "(*strings.Builder)."))
 		switch {
-		case strings.HasSuffix(name, ").Write"), strings.HasSuffix(name, ").WriteString"), strings.HasSuffix(name, ").WriteByte"), strings.HasSuffix(name, ").WriteRune"):
-			if !instrDominates(call, read) {
-				return nil, false
-			}
-			if k.c.inLoop(call.Block()) {
-				return nil, false
-			}
-			writes = append(writes, call)
-		case strings.HasSuffix(name, ").Bytes"), strings.HasSuffix(name, ").String"), strings.HasSuffix(name, ").Len"), strings.HasSuffix(name, ").Grow"):
+		case isRecv && (strings.HasSuffix(name, ").Write") || strings.HasSuffix(name, ").WriteString") || strings.HasSuffix(name, ").WriteByte") || strings.HasSuffix(name, ").WriteRune")):
+			events = append(events, event{call: call})
+		case isRecv && (strings.HasSuffix(name, ").Bytes") || strings.HasSuffix(name, ").String") || strings.HasSuffix(name, ").Len") || strings.HasSuffix(name, ").Grow") || strings.HasSuffix(name, ").Cap")):
+		case isRecv:
+			return nil, false // Reset, Truncate, ...
 		default:
-			return nil, false
+			g := staticCallee(call)
+			if g == nil || !k.c.IsLib(k.c.declared(g)) {
+				return nil, false
+			}
+			g = k.c.declared(g)
+			pidx := -1
+			for i, a := range call.Common().Args {
+				if a == addr {
+					pidx = i
+				}
+			}
+			if pidx < 0 || pidx >= len(g.Params) {
+				return nil, false
+			}
+			events = append(events, event{call: call, helper: g, pidx: pidx})
 		}
 	}
-	sort.SliceStable(writes, func(i, j int) bool { return instrDominates(writes[i], writes[j]) })
-	for i := 0; i+1 < len(writes); i++ {
-		if !instrDominates(writes[i], writes[i+1]) {
+	for _, e := range events {
+		if k.c.inLoop(e.call.Block()) {
+			return nil, false
+		}
+		if until != nil && !instrDominates(e.call, until) {
+			return nil, false
+		}
+		if until == nil {
+			// inside a helper: the write must happen on every path
+			for _, ret := range returnsOf(e.call.Parent()) {
+				if !instrDominates(e.call, ret) {
+					return nil, false
+				}
+			}
+		}
+	}
+	sort.SliceStable(events, func(i, j int) bool { return instrDominates(events[i].call, events[j].call) })
+	for i := 0; i+1 < len(events); i++ {
+		if !instrDominates(events[i].call, events[i+1].call) {
 			return nil, false
 		}
 	}
 	out := lit("")
-	for _, w := range writes {
-		a := w.Common().Args[1]
+	for _, e := range events {
+		if e.helper != nil {
+			nenv := kenv{}
+			for i, p := range e.helper.Params {
+				if i < len(e.call.Common().Args) && (isStringOrBytes(p.Type()) || isIntType(p.Type())) {
+					nenv[p] = k.evalArg(e.call.Common().Args[i], env, depth, busy)
+				}
+			}
+			sub, ok := k.builderEvents(e.helper.Params[e.pidx], nil, nenv, depth+1, busy)
+			if !ok {
+				return nil, false
+			}
+			out = concat(out, sub)
+			continue
+		}
+		a := e.call.Common().Args[1]
 		if isIntType(a.Type()) {
 			if ci, ok := constInt(a); ok {
 				out = concat(out, lit(string(rune(ci))))
@@ -871,5 +929,60 @@ func (k *keyEvaluator) builderContents(read *ssa.Call, env kenv, depth int, busy
 		}
 		out = concat(out, k.eval(a, env, depth, busy))
 	}
+	return out, true
+}
+
+// fieldContents resolves a load of struct field n.f (a string/[]byte field of a
+// library struct) to what the library ever stores there: every store to that
+// field anywhere in the library is evaluated in its own function and its
+// parameters expanded at the call sites. ok=false when nothing literal comes out
+// (the field then stays an opaque variable).
+func (k *keyEvaluator) fieldContents(n *types.Named, f string, depth int) ([]Tmpl, bool) {
+	if n == nil || n.Obj().Pkg() == nil || k.c.LibPkgs[n.Obj().Pkg().Path()] == nil || depth > 6 {
+		return nil, false
+	}
+	key := n.Obj().Pkg().Path() + "." + n.Obj().Name() + "." + f
+	if k.fieldMemo == nil {
+		k.fieldMemo = map[string][]Tmpl{}
+		k.fieldBusy = map[string]bool{}
+	}
+	if t, ok := k.fieldMemo[key]; ok {
+		return t, t != nil
+	}
+	if k.fieldBusy[key] {
+		return nil, false
+	}
+	k.fieldBusy[key] = true
+	defer delete(k.fieldBusy, key)
+	var out []Tmpl
+	found := false
+	for _, fn := range k.c.LibFuncs {
+		for _, b := range fn.Blocks {
+			for _, in := range b.Instrs {
+				st, ok := in.(*ssa.Store)
+				if !ok || !isStringOrBytes(st.Val.Type()) {
+					continue
+				}
+				_, sf, sn := fieldOfAddr(st.Addr)
+				if sf != f || sn == nil || !types.Identical(sn, n) {
+					continue
+				}
+				found = true
+				ts := k.expand(k.eval(st.Val, nil, depth+1, map[ssa.Value]bool{}), 0)
+				out = union(out, ts)
+			}
+		}
+	}
+	literal := false
+	for _, t := range out {
+		if !t.onlyOpaque() && !t.isNil() {
+			literal = true
+		}
+	}
+	if !found || !literal || len(out) > 8 {
+		k.fieldMemo[key] = nil
+		return nil, false
+	}
+	k.fieldMemo[key] = out
 	return out, true
 }
